@@ -205,8 +205,9 @@ async def _scenario(rng, d):
 
             async def request_channel(self, payload):
                 delegate_calls.append(('channel', pkey(payload)))
-                o = make_observable(version, world, 'handler', iid, DIR_RESPONSE, d['down'], d['down_error'],
-                                    d['down_kind'], d['pacing'], down)
+                o = None if d.get('receive_only') else make_observable(
+                    version, world, 'handler', iid, DIR_RESPONSE, d['down'], d['down_error'], d['down_kind'],
+                    d['pacing'], down)
                 obs = None
                 if d['up'] is not None:
                     if version == 'rx4':
@@ -375,6 +376,10 @@ def gen_scenario(rng, single=False):
                 d['up_error'] = None
             else:
                 d['down_error'] = None
+    if model == 'channel' and d['up'] is not None and d['handler_adapter'] and rng.random() < 0.2:
+        # a receive-only channel: the delegate returns an observer but no observable
+        d['receive_only'] = True
+        d['down'], d['down_error'], d['dispose_after'] = [], None, None
     if single:
         d['dispose_after'] = None
         d['limit'] = MAXN
